@@ -9,6 +9,8 @@
 (* the run terminates within Len(src) + 2 steps; the deliveries for the    *)
 (* string without its last byte are a prefix of the deliveries for the     *)
 (* string (PrefixClosed); the listing segments of all steps tile the       *)
+(* consumed input exactly; every run terminates (liveness under WF).       *)
+(*                                                                         *)
 (* consumed input exactly (byte-complete disassembly).                     *)
 (***************************************************************************)
 EXTENDS Decoder, TLC, SequencesExt
@@ -54,7 +56,7 @@ Next ==
      /\ consumed' = IF r.out.k = "call" THEN consumed + Sum(r.segs) ELSE consumed
      /\ UNCHANGED src
 
-Spec == Init /\ [][Next]_vars
+Spec == Init /\ [][Next]_vars /\ WF_vars(Next)
 
 ResetFirst  == nOut >= 1 => first = "Reset"
 NoEarlyOutput == st.mode = "start" => nOut = 0
@@ -62,6 +64,11 @@ Terminates  == steps <= Len(src) + 2
 ByteComplete == st.mode \in {"styling", "drawing", "done"} => consumed = st.pos - 1
 Progress    == [][nOut' > nOut => st'.pos > st.pos]_vars
 Monotone    == [][st'.pos >= st.pos /\ nOut' >= nOut]_vars
+(* liveness, under weak fairness of the decoding step: every input is eventually accepted or rejected *)
+Termination == <>(st.mode \in {"done", "err"})
+(* the machine is in drawing mode exactly between a StartPath and the next ClosePathEndPath *)
+ModeDiscipline == [][(st.mode = "styling" /\ st'.mode = "drawing" => st'.pos > st.pos)
+                     /\ (st.mode = "drawing" /\ st'.mode = "styling" => src[st'.pos - 1] = 225)]_vars
 
 (* whole-run function, for the prefix property *)
 RECURSIVE Run(_, _, _)
